@@ -17,7 +17,7 @@ PROBES = ["workers>1", "switches>0", "multi_file", "unequal_file_sizes", "parque
           "pred_chunks>=2", "train_chunks>=2", "switch_in_get_rows", "switch_in_predict_fold",
           "scan_only_key", "four_col_key", "multi_psm_spectra", "fallback_best_feature",
           "brew_raised", "fold_without_accept", "dup_scan_other_mass", "pct_schedule", "pred_chunk_lacks_fold",
-          "proba_only_learner", "tied_raw_outputs"]
+          "proba_only_learner", "learner_with_both_methods", "tied_raw_outputs"]
 
 
 def make_scenario(prop, seed):
@@ -39,7 +39,7 @@ def make_scenario(prop, seed):
         cap = n_rows_guess * 3
     thr = rng.choice([0.1037, 0.2113, 0.2113, 0.3071])
     cfg = {
-        "learner": rng.choice(["rlda", "rlda", "olda", "plda"]) if prop == "C02" else rng.choice(["rlda", "rlda", "olda"]),
+        "learner": rng.choice(["rlda", "rlda", "olda", "plda", "blda"]) if prop == "C02" else rng.choice(["rlda", "rlda", "olda", "blda"]),
         "folds": folds,
         "test_fdr": thr,
         "train_fdr": rng.choice(datagen.THRESHOLDS[1:]),
@@ -134,6 +134,7 @@ def run_scenario(scn, workdir, want):
         "four_col_key": int(len(spec_cols) == 4),
         "pct_schedule": int((scn.get("sched") or {}).get("mode") == "pct"),
         "proba_only_learner": int(cfg["learner"] == "plda"),
+        "learner_with_both_methods": int(cfg["learner"] == "blda"),
         "tied_raw_outputs": int(bool((cfg.get("est_kw") or {}).get("round_out") is not None)),
         "dup_scan_other_mass": int(bool(scn["data"].get("dup_scan_frac")) and "ExpMass" in scn["data"]["spec_extra"]),
         "pred_chunk_lacks_fold": int(kn.get("CHUNK_SIZE_ROWS_PREDICTION", 10**9) < 2 * cfg["folds"]),
